@@ -978,6 +978,73 @@ def c14_sections(rng, tier):
     return out
 
 
+@oracle("C17", "total_performance_group")
+def c17_total_performance(rng, tier):
+    """the identities at the level of the TotalPerformance group (wiring included), load factor != 1"""
+    from openaerostruct.functionals.total_performance import TotalPerformance
+    import openmdao.api as om
+    ns = int(rng.integers(1, 3))
+    nx, ny = _pick_size(rng, tier)
+    ss = [gen.base_surface(rng, nx, ny, bool(rng.integers(2)), name="s%d" % k) for k in range(ns)]
+    prob = om.Problem(reports=False)
+    ivc = om.IndepVarComp()
+    vals = dict(v=float(rng.uniform(50, 250)), rho=float(rng.uniform(0.3, 1.2)), CT=float(rng.uniform(1e-5, 3e-4)), R=float(rng.uniform(1e5, 1e7)),
+                Mach_number=float(rng.uniform(0.2, 0.85)), speed_of_sound=float(rng.uniform(290, 340)), W0=float(rng.uniform(1e3, 1e5)),
+                load_factor=float(rng.choice([1.0, 2.5, -1.0, rng.uniform(0.5, 3)])))
+    for k, v in vals.items():
+        ivc.add_output(k, val=v)
+    ecg = rng.normal(size=3) * 3
+    ivc.add_output("empty_cg", val=ecg)
+    data = []
+    for s in ss:
+        n = s["name"]; m = s["mesh"]; snx, sny = m.shape[:2]
+        d = dict(CL=float(rng.uniform(0.1, 0.9)), CD=float(rng.uniform(0.01, 0.05)), S_ref=float(rng.uniform(10, 200)),
+                 structural_mass=float(rng.uniform(100, 5e3)), cg_location=rng.normal(size=3) * 3,
+                 b_pts=0.75 * m[:-1] + 0.25 * m[1:], widths=rng.uniform(0.3, 2, size=sny - 1), chords=rng.uniform(0.5, 3, size=sny),
+                 sec_forces=rng.normal(size=(snx - 1, sny - 1, 3)) * 1e3)
+        data.append(d)
+        for k, v in d.items():
+            ivc.add_output(n + "_" + k, val=v)
+    prob.model.add_subsystem("ivc", ivc, promotes=["*"])
+    prob.model.add_subsystem("tp", TotalPerformance(surfaces=ss, user_specified_Sref=False, internally_connect_fuelburn=True), promotes=["*"])
+    with quiet():
+        prob.setup(); prob.run_model()
+    g = lambda k: np.array(prob.get_val(k), dtype=float)
+    out = []
+    lf = vals["load_factor"]
+    case = dict(ns=ns, load_factor=lf)
+    S = np.array([d["S_ref"] for d in data]); CL = np.array([d["CL"] for d in data]); CD = np.array([d["CD"] for d in data])
+    sm = np.array([d["structural_mass"] for d in data])
+    q = 0.5 * vals["rho"] * vals["v"] ** 2
+    cl = np.sum(CL * S) / S.sum(); cd = np.sum(CD * S) / S.sum()
+    if abs(g("CL")[0] - cl) > 1e-12 * abs(cl) or abs(g("L")[0] - q * S.sum() * cl) > 1e-10 * abs(q * S.sum() * cl):
+        out.append(_fail("group: CL / L are not the area-weighted sum / q S CL", [g("CL")[0], g("L")[0]], [cl, q * S.sum() * cl], **case))
+    fb = (vals["W0"] + sm.sum()) * (np.exp(vals["R"] * vals["CT"] / vals["speed_of_sound"] / vals["Mach_number"] * cd / cl) - 1)
+    if abs(g("fuelburn")[0] - fb) > 1e-9 * abs(fb):
+        out.append(_fail("group: fuel burn does not follow the Breguet range equation", g("fuelburn")[0], fb, **case))
+    W = (vals["W0"] + sm.sum() + fb) * G * lf
+    if abs(g("total_weight")[0] - W) > 1e-9 * abs(W) or abs(g("L_equals_W")[0] - (1 - q * S.sum() * cl / W)) > 1e-9:
+        out.append(_fail("group: L_equals_W != 1 - L/W with W = (W0 + structure + fuel) g n", [g("total_weight")[0], g("L_equals_W")[0]], [W, 1 - q * S.sum() * cl / W], **case))
+    cg = (vals["W0"] * ecg + sum(d["structural_mass"] * d["cg_location"] for d in data)) / (vals["W0"] + sm.sum())
+    if np.max(np.abs(g("cg") - cg)) > 1e-9 * max(1.0, np.max(np.abs(cg))):
+        out.append(_fail("group: the aircraft cg is not the mass-weighted mean (load factor must cancel)", g("cg"), cg, **case))
+    # CM about that cg
+    M = np.zeros(3); mac0 = None
+    for k, (s, d) in enumerate(zip(ss, data)):
+        pts = 0.5 * (d["b_pts"][:, 1:] + d["b_pts"][:, :-1])
+        mom = np.cross(pts - cg, d["sec_forces"]).sum(axis=(0, 1))
+        if s["symmetry"]:
+            mom = np.array([0.0, 2 * mom[1], 0.0])
+        M += mom
+        if k == 0:
+            pc = 0.5 * (d["chords"][1:] + d["chords"][:-1])
+            mac0 = np.sum(pc ** 2 * d["widths"]) / d["S_ref"] * (2 if s["symmetry"] else 1)
+    cm = M / (q * S.sum() * mac0)
+    if np.max(np.abs(g("CM") - cm)) > 1e-8 * max(np.max(np.abs(cm)), 1e-9):
+        out.append(_fail("group: CM is not the summed moment about the cg over q S MAC", g("CM"), cm, **case))
+    return out
+
+
 class Discard(Exception):
     """raised by an oracle when the generated case is outside the property's quantifier"""
 from . import oracles_aero  # noqa: F401,E402
